@@ -99,6 +99,7 @@ inline void sample(const std::string& text) {
 struct Gate {
     long idx = -1;
     long start = 0;
+    long taken = 0;
     bool stop = false;
     bool take(const rx::Registry& r) {
         ++idx;
@@ -112,7 +113,8 @@ struct Gate {
             return false;
         if (idx < start)
             return false;
-        if (g_opts.deadline_s > 0 && (idx & 0x3ff) == 0 &&
+        // counted per process: idx & mask would only ever fire in shard 0
+        if (g_opts.deadline_s > 0 && (++taken & 0xf) == 0 &&
             now() - g_t0 > g_opts.deadline_s) {
             g_sh->deadline_hit = 1;
             stop = true;
